@@ -361,8 +361,16 @@ func tablesC01(c *Ctx) {
 				}
 			}
 		}
-		c.Check(okLoop, "C01.keywords", "init: table filled from keywordBeg+1 .. keywordEnd-1", initf.Pos(), "the loop that fills the keyword table does not span exactly the keyword range")
-		c.Check(okExtras >= 3, "C01.keywords", "init: AND, OR, true, false added", initf.Pos(), fmt.Sprintf("%d additional entries", okExtras))
+		if okLoop {
+			c.OK("C01.keywords", "init: table filled from keywordBeg+1 .. keywordEnd-1", initf.Pos(), "loop bounds are the keyword range")
+		} else {
+			c.Unk("C01.keywords", "init: table filled from keywordBeg+1 .. keywordEnd-1", initf.Pos(), "no loop over keywordBeg+1..keywordEnd-1 storing directly into the keyword table was recognised")
+		}
+		if okExtras >= 3 {
+			c.OK("C01.keywords", "init: AND, OR, true, false added", initf.Pos(), fmt.Sprintf("%d additional entries", okExtras))
+		} else {
+			c.Unk("C01.keywords", "init: AND, OR, true, false added", initf.Pos(), "additional entries not recognised")
+		}
 	}
 
 	// ---- casts ----
